@@ -16,6 +16,7 @@ type modSet struct {
 	vars   map[*types.Var]bool
 	keys   map[string]Sort // heap key -> array sort ("" if unknown)
 	all    bool
+	why    []string        // callees without contract that made `all` true (become path taint when the loop is cut)
 	points map[string]bool // program points ("after call f#1", ...) that lie inside the scanned code
 }
 
@@ -287,18 +288,24 @@ func (c *Ctx) callMods(info *types.Info, call *ast.CallExpr, ms *modSet, depth i
 			return
 		}
 	}
-	if fi := e.funcs[fn.FullName()]; !isIface && fi != nil && (e.cs.Inline[fn.FullName()] || inlinable(fi.Decl)) && depth < 6 {
+	if fi := e.funcs[fn.FullName()]; !isIface && fi != nil && (e.cs.Inline[fn.FullName()] || inlinable(fi.Decl) || inlinableBranching(fi.Decl)) && depth < 6 {
+		// (a branching helper whose inlining fails at the call is havoc'd there; its syntactic effects are
+		// still a sound description of what the call can change)
 		c.collectMods(fi.Pkg.TypesInfo, fi.Decl.Body, ms, depth+1)
 		// callee locals are irrelevant to the caller but harmless
 		return
 	}
 	ms.all = true
+	ms.why = append(ms.why, fn.FullName())
 }
 
 // composite literals of maps / &T{} allocate: they write fresh cells only, which
 // cannot alias anything visible before the loop; nothing to add.
 
 func (c *Ctx) havocMods(st *State, ms *modSet) {
+	if ms.all && len(ms.why) > 0 {
+		st.taint = append(st.taint, ms.why...)
+	}
 	if ms.all {
 		c.heapHavocAll(st)
 	}
